@@ -89,6 +89,7 @@ type Term struct {
 	val  uint64 // constants
 	name string // variables
 	args []*Term
+	fp   bool // some FP operation below (such queries go to a one-shot solver run)
 }
 
 type argKey struct {
@@ -162,6 +163,12 @@ func intern(op Op, sort Sort, w uint8, aux uint16, name string, args ...*Term) *
 	t := &Term{op: op, sort: sort, w: w, aux: aux, name: name, id: int32(len(termList))}
 	if len(args) > 0 {
 		t.args = append([]*Term(nil), args...)
+	}
+	t.fp = sort == SFP
+	for _, a := range args {
+		if a.fp || a.sort == SFP {
+			t.fp = true
+		}
 	}
 	termList = append(termList, t)
 	termTable[k] = t
